@@ -90,6 +90,88 @@ fn mirror_fen(fen: &str) -> String {
     format!("{} {} {} {} {} {}", rows.join("/"), turn, cs, ep, f[4], f[5])
 }
 
+/// Structured families that random play rarely reaches (white-to-move form; the caller adds the colour-flipped twin):
+/// (a) the castling set-up with one extra enemy piece of every kind on every free square (castling out of, through
+///     and into every kind of attack, incl. pawn attacks on every path square);
+/// (b) an en-passant capture available on every file, with one or two capturing pawns, with the king safe, with the
+///     king on the capture rank facing a rook or queen behind the two pawns, and with a bishop behind the captured pawn.
+pub fn matrix_fens() -> Vec<String> {
+    let mut v = vec![];
+    let put = |g: &mut [Option<char>; 64], sq: usize, c: char| g[sq] = Some(c);
+    for extra in ['p', 'n', 'b', 'r', 'q'] {
+        for sq in 0..64usize {
+            let mut g = [None::<char>; 64];
+            for (s, c) in [(0, 'R'), (4, 'K'), (7, 'R'), (56, 'r'), (60, 'k'), (63, 'r')] {
+                put(&mut g, s, c);
+            }
+            if g[sq].is_some() || (extra == 'p' && (sq / 8 == 0 || sq / 8 == 7)) {
+                continue;
+            }
+            put(&mut g, sq, extra);
+            v.push(format!("{} w KQkq - 0 1", grid_placement(&g)));
+        }
+    }
+    for f in 0..8usize {
+        for pawns in 1..=3u8 {
+            // bit 0: capturer on the left, bit 1: capturer on the right
+            if (pawns & 1 != 0 && f == 0) || (pawns & 2 != 0 && f == 7) {
+                continue;
+            }
+            for setup in 0..5u8 {
+                let mut g = [None::<char>; 64];
+                put(&mut g, 32 + f, 'p'); // the pawn that has just advanced two squares to the fifth rank
+                if pawns & 1 != 0 {
+                    put(&mut g, 32 + f - 1, 'P');
+                }
+                if pawns & 2 != 0 {
+                    put(&mut g, 32 + f + 1, 'P');
+                }
+                let free = |g: &[Option<char>; 64], s: usize| g[s].is_none();
+                match setup {
+                    0 => {
+                        put(&mut g, 4, 'K');
+                        put(&mut g, 60, 'k');
+                    }
+                    1 | 2 => {
+                        // king and a rook / queen on the two ends of the capture rank
+                        let (ks, rs) = if setup == 1 { (32, 39) } else { (39, 32) };
+                        if !free(&g, ks) || !free(&g, rs) {
+                            continue;
+                        }
+                        put(&mut g, ks, 'K');
+                        put(&mut g, rs, if f % 2 == 0 { 'r' } else { 'q' });
+                        put(&mut g, 60, 'k');
+                    }
+                    3 => {
+                        // king one step diagonally below the pawn to be captured, bishop one step diagonally above it on the same diagonal
+                        if f == 0 || f == 7 {
+                            continue;
+                        }
+                        let (ks, bs) = (32 + f - 8 - 1, 32 + f + 8 + 1);
+                        if !free(&g, ks) || !free(&g, bs) {
+                            continue;
+                        }
+                        put(&mut g, ks, 'K');
+                        put(&mut g, bs, 'b');
+                        put(&mut g, 63 - 7 * usize::from(f >= 4), 'k');
+                    }
+                    _ => {
+                        // the capturing pawn itself pinned on its file by a rook
+                        let cf = if pawns & 1 != 0 { f - 1 } else { f + 1 };
+                        let (ks, rs) = (8 + cf, 56 + cf);
+                        put(&mut g, ks, 'K');
+                        put(&mut g, rs, 'r');
+                        put(&mut g, if cf == 4 { 62 } else { 60 }, 'k');
+                    }
+                }
+                let file = (b'a' + f as u8) as char;
+                v.push(format!("{} w - {}6 0 1", grid_placement(&g), file));
+            }
+        }
+    }
+    v
+}
+
 fn swapped_fen(fen: &str) -> String {
     let f: Vec<&str> = fen.split(' ').collect();
     let turn = if f[1] == "w" { "b" } else { "w" };
@@ -297,6 +379,26 @@ pub fn walk(args: &[String]) {
         e.seen.clear();
         let mut b = Board::from_fen(fen);
         dfs(&mut e, &mut b, dfs_depth);
+    }
+
+    // structured families, both colours; a member that is not a position of a legal game (the side that has just moved in check) is dropped
+    if arg::<u64>(args, "matrix", 1) == 1 {
+        let mut idx = 0u64;
+        for fen in matrix_fens() {
+            for fen in [fen.clone(), mirror_fen(&fen)] {
+                idx += 1;
+                if idx % of != shard {
+                    continue;
+                }
+                let mut b = Board::from_fen(&fen);
+                if b.is_in_check(b.current_turn.opposite()) {
+                    continue;
+                }
+                writeln!(e.out, "N {fen}").unwrap();
+                e.seen.clear();
+                e.block(&mut b);
+            }
+        }
     }
 
     // random games with nested excursions, reloads through FEN and deliberate repetitions
